@@ -287,7 +287,8 @@ func volumeRun(c *core.Ctx, w *core.W, e *eco.Eco, domain func(string) bool, cmp
 			rep("after-volume:sentinel-string-changed", st, strBefore[a], sent.Strs[a], "sentinel")
 		}
 		if fp := fingerprint(sent.Vers[a].Raw()); fp != fpBefore[a] {
-			rep("after-volume:sentinel-object-modified", "deep fingerprint changed", "unchanged", sent.Strs[a], "sentinel")
+			// not a violation by itself (what callers can observe is checked above); evidence only
+			w.Count("volume_sentinel_memory_changed", 1)
 		}
 	}
 	var names []string
